@@ -5,6 +5,10 @@
 package fam
 
 import (
+	"context"
+	"fmt"
+	"gorm.io/gorm/schema"
+	"reflect"
 	"strings"
 	"time"
 
@@ -65,6 +69,37 @@ type Note struct {
 	ID   uint `gorm:"primarykey"`
 	Body string
 	Rank int
+	Tag  Sealed // a field whose type is its own serializer (schema.SerializerInterface)
+}
+
+// Sealed stores its text reversed; Scan writes into the receiver, the way the
+// EncryptedString example of gorm's own tests does.
+type Sealed string
+
+func (s *Sealed) Scan(ctx context.Context, field *schema.Field, dst reflect.Value, dbValue interface{}) error {
+	switch v := dbValue.(type) {
+	case nil:
+		*s = ""
+	case []byte:
+		*s = Sealed(reverse(string(v)))
+	case string:
+		*s = Sealed(reverse(v))
+	default:
+		return fmt.Errorf("fam.Sealed: unsupported value %T", dbValue)
+	}
+	return nil
+}
+
+func (s Sealed) Value(ctx context.Context, field *schema.Field, dst reflect.Value, fieldValue interface{}) (interface{}, error) {
+	return reverse(string(s)), nil
+}
+
+func reverse(x string) string {
+	b := []byte(x)
+	for i, j := 0, len(b)-1; i < j; i, j = i+1, j-1 {
+		b[i], b[j] = b[j], b[i]
+	}
+	return string(b)
 }
 
 // Gadget has database-side defaults on two columns (they are inserted only when
@@ -149,9 +184,9 @@ func call(hook, model string, rec interface{}, tx *gorm.DB) error {
 // subsets, so that a hook of one kind is never implied by another kind being
 // present (User, Pet and Note define all of them).
 var NoHook = map[string]map[string]bool{
-	"Toy":      {"BeforeSave": true, "AfterSave": true},
+	"Toy":      {"BeforeSave": true, "AfterSave": true, "AfterCreate": true},                                                                      // AfterUpdate without AfterSave/AfterCreate
 	"Language": {"BeforeCreate": true, "AfterCreate": true, "BeforeUpdate": true, "AfterUpdate": true, "BeforeDelete": true, "AfterDelete": true}, // save hooks (and AfterFind) only
-	"Account":  {"AfterCreate": true, "AfterUpdate": true, "AfterSave": true},
+	"Account":  {"AfterUpdate": true, "AfterSave": true},                                                                                          // AfterCreate without AfterSave/AfterUpdate
 	"Company":  {"BeforeSave": true, "BeforeCreate": true, "BeforeUpdate": true},
 	"Memo":     {"BeforeCreate": true, "AfterCreate": true, "BeforeUpdate": true, "AfterUpdate": true, "AfterSave": true, "BeforeDelete": true, "AfterDelete": true},
 }
@@ -184,6 +219,7 @@ func (m *Company) BeforeDelete(tx *gorm.DB) error { return call("BeforeDelete", 
 func (m *Company) AfterDelete(tx *gorm.DB) error  { return call("AfterDelete", "Company", m, tx) }
 func (m *Company) AfterFind(tx *gorm.DB) error    { return call("AfterFind", "Company", m, tx) }
 
+func (m *Account) AfterCreate(tx *gorm.DB) error  { return call("AfterCreate", "Account", m, tx) }
 func (m *Account) BeforeSave(tx *gorm.DB) error   { return call("BeforeSave", "Account", m, tx) }
 func (m *Account) BeforeCreate(tx *gorm.DB) error { return call("BeforeCreate", "Account", m, tx) }
 func (m *Account) BeforeUpdate(tx *gorm.DB) error { return call("BeforeUpdate", "Account", m, tx) }
@@ -202,7 +238,6 @@ func (m *Pet) AfterDelete(tx *gorm.DB) error  { return call("AfterDelete", "Pet"
 func (m *Pet) AfterFind(tx *gorm.DB) error    { return call("AfterFind", "Pet", m, tx) }
 
 func (m *Toy) BeforeCreate(tx *gorm.DB) error { return call("BeforeCreate", "Toy", m, tx) }
-func (m *Toy) AfterCreate(tx *gorm.DB) error  { return call("AfterCreate", "Toy", m, tx) }
 func (m *Toy) BeforeUpdate(tx *gorm.DB) error { return call("BeforeUpdate", "Toy", m, tx) }
 func (m *Toy) AfterUpdate(tx *gorm.DB) error  { return call("AfterUpdate", "Toy", m, tx) }
 func (m *Toy) BeforeDelete(tx *gorm.DB) error { return call("BeforeDelete", "Toy", m, tx) }
